@@ -129,6 +129,7 @@ def part_form(case, rec):
         return None
     ivars = gens.ein_vars(e)
     followers, terms = [], []
+    forms = set()
     for t in e["terms"]:
         scal, tensors = 1, []
         for f in t["factors"]:
@@ -139,16 +140,21 @@ def part_form(case, rec):
                 if q in vs:
                     if any(c < 1 for c, _ in acc) or (R != W and len(acc) != 1) or (R == W and len(acc) < 2):
                         return None
-                    # output-stationary: the lower level of an index-math follower resolves after Q0 (some other variable of the access is
-                    # looped later); a tensor carrying the partitioned rank itself (mask operand, access = q) is co-iterated at Q0
-                    if len(acc) >= 2 and not any(lo.index(v.upper()) > lo.index(Q + "0") for v in vs if v != q and v.upper() in lo):
-                        return None
+                    # form A (output-stationary): the lower level of an index-math follower resolves after Q0 (some other variable of the
+                    # access is looped later); form B: it resolves AT Q0 (every other variable is looped before), the projection then
+                    # carries the data-dependent interval; a tensor carrying the partitioned rank itself (access = q) is co-iterated at Q0
+                    if len(acc) >= 2:
+                        later = any(lo.index(v.upper()) > lo.index(Q + "0") for v in vs if v != q and v.upper() in lo)
+                        forms.add("A" if later else "B")
                     if [f[1], i] not in followers:
                         followers.append([f[1], i])
             tensors.append({"name": f[1], "ranks": list(case["decl"][f[1]]), "idx": [{"terms": [[c, v] for c, v in i], "const": 0} for i in f[2]]})
         terms.append({"scal": scal, "tensors": tensors})
-    if not followers or [i for i in e["oidx"] if len(i) != 1 or i[0][0] != 1]:
+    if not followers or [i for i in e["oidx"] if len(i) != 1 or i[0][0] != 1] or len(forms) != 1:
         return None
+    modeB = forms == {"B"}
+    if modeB and (len(e["terms"]) != 1 or any(len(case["decl"][nm]) != 1 for nm, _ in followers)):
+        return None          # the present partitions must not depend on outer coordinates (single term, one-rank followers)
     a = [c for t in e["terms"] for f in t["factors"] if f[0] == "t" for R, acc in zip(case["decl"][f[1]], f[2]) if R == W for c, v in acc if v == q][0]
     loop2, exts2 = [], []
     for r in lo:
@@ -164,7 +170,8 @@ def part_form(case, rec):
     env.update({k: int(v) for k, v in case["env"].items() if isinstance(v, int)})
     env.update({"Q__": case["ext"][Q], "N__": n})
     return {"op": "nest_aff", "loop": ivars, "exts": [case["ext"][v.upper()] for v in ivars], "out_name": e["out"], "out_vars": [i[0][1] for i in e["oidx"]],
-            "terms": terms, "tree": rec["tree"], "part": {"q": q, "n": n, "followers": followers}, "loop2": loop2, "exts2": exts2, "env": env}
+            "terms": terms, "tree": rec["tree"], "part": dict({"q": q, "n": n, "followers": followers}, **({"mode": "B"} if modeB else {})),
+            "loop2": loop2, "exts2": exts2, "env": env}
 
 
 def lean_aff_request(case, rec, ex):
@@ -257,6 +264,8 @@ def check_model(ctx, recs):
             ctx.stat("model_affine_own_rank_loop")
         if (r["yaml"].get("mapping") or {}).get("partitioning"):
             ctx.stat("model_affine_partitioned")
+            if "\"mode\": \"B\"" in json.dumps(lean_aff_request(case, r, ex).get("part", {})):
+                ctx.stat("model_affine_partitioned_interval_logic")
         ok_h = a["hyps_ok"]
         if ok_h:
             ctx.stat("model_hypotheses_hold")
@@ -270,6 +279,11 @@ def check_model(ctx, recs):
             continue
         rep = dict(semcheck.base_replay(r, case, ex), real=real, model_run=run_, model_spec=spec_, hyps_ok=ok_h,
                    skeleton_errors=a.get("skeleton_errors"), skeleton_expected=a["expected_loops"], skeleton_actual=a.get("actual_loops"))
+        if not ok_h and a.get("unclipped") and "halo_partition" in preds:
+            # a present partition at or beyond the extent: exactly the class of the known finding (the interval before it is not clipped)
+            f = ctx.match_finding({"predicates": preds, "signature": "out-of-extent-only"})
+            if f:
+                ctx.known(f, f["what"], failed_obligations=1 + (0 if (skel_ok and real == run_) else 1)); continue
         if not ok_h and "term_without_fiber_at_loop" in preds:
             f = ctx.match_finding({"predicates": preds, "signature": "wrong-values"})
             if f:
